@@ -171,6 +171,12 @@ def check_property(prop, tier, seed, timeout_s):
         qual = o.func
         if qual not in hunted:
             hunted[qual] = hunt(qual, prop, seed, tier, o.name, f"{o.verdict}: {o.detail}")
+            # no executable contract for this function (or nothing found): try the property-level oracles
+            for alt in spec.get("oracles", []):
+                if hunted[qual][0] == "found":
+                    break
+                if alt != qual:
+                    hunted[qual] = hunt(alt, prop, seed, tier, o.name, f"{o.verdict}: {o.detail}")
         status, path, text = hunted[qual]
         if status == "found":
             violations.append((o.name, path, True))
@@ -184,6 +190,11 @@ def check_property(prop, tier, seed, timeout_s):
             known_seen.append({"obligation": qual, "what": k["what"]})
             continue
         status, path, text = hunt(qual, prop, seed, tier, f"{qual.partition('::')[2]}/{kind}", msg)
+        for alt in spec.get("oracles", []):
+            if status == "found":
+                break
+            if alt != qual:
+                status, path, text = hunt(alt, prop, seed, tier, f"{qual.partition('::')[2]}/{kind}", msg)
         if status == "found":
             violations.append((f"{qual.partition('::')[2]}/{kind}", path, True))
         else:
